@@ -159,6 +159,8 @@ def check_property(pid, tier, seed, extra=None):
     if tier == "thorough" and os.environ.get("VERIF_TWINS", "1") == "1":
         def tjob(h):
             args = [by_mod[h.key], h.key, str(max(10, int(h.timeout * scale))), "--twin"]
+            if h.per_path_timeout:
+                args += ["--ppt", str(h.per_path_timeout)]
             for e in active_excl.get(h.key, []):
                 args += ["--extra-pre", e]
             return h.key, _run_worker(args, wall=h.timeout * 2 + 120)
